@@ -324,9 +324,13 @@ Wake ==
        \E R \in (IF RetryExact THEN {D} ELSE SUBSET D) :
            /\ st' = [p \in Peer |-> IF p \in R THEN "initial" ELSE st[p]]
            /\ dial' = [p \in Peer |-> dial[p] \/ p \in R]                  \* reconnect(): Io::Connect
+           \* ... and the session records that its connection will be an outbound one (as found: it
+           \* kept the link of the inbound connection that had taken the session over, and the failure
+           \* of the dial was then ignored: the session stayed Initial for ever)
+           /\ link' = [p \in Peer |-> IF p \in R /\ "stale-link" \notin Dev THEN "out" ELSE link[p]]
     /\ applied' = <<>>
     /\ Log(<<"idle">>)
-    /\ UNCHANGED <<link, wire, routing>>
+    /\ UNCHANGED <<wire, routing>>
 
 Done == \E g \in DOMAIN tasks, ok \in BOOLEAN : TaskDone(g, ok)
 
@@ -348,6 +352,9 @@ LiveSpec == Spec /\ Fairness
 \* No starvation: while its session stays connected, a fetch waiting in the session's queue is
 \* eventually taken out of the queue (started or found redundant).
 QueueDrains == \A p \in Peer : (Len(queue[p]) > 0 /\ st[p] = "connected") ~> (Len(queue[p]) = 0 \/ st[p] # "connected")
+\* A persistent peer without a connection is eventually dialled again (or connects to us) -- what the
+\* deviation "stale-link" breaks: the session stays "connected", so the peer is never dialled again.
+PersistentRedialled == \A p \in Persistent : (wire[p] = "none") ~> (dial[p] \/ wire[p] # "none")
 \* Every fetch the service started is eventually completed or abandoned.
 TasksComplete == \A g \in 1..(MaxTasks + QueueMax * Cardinality(Peer)) : (g \in live) ~> (g \notin live)
 
